@@ -17,6 +17,8 @@ use tokio::net::tcp::OwnedWriteHalf;
 const NODE: &str = "n1@127.0.0.1";
 const PEER: &str = "peer@127.0.0.1";
 const RX: &str = "rx:peer@127.0.0.1";
+const PEERB: &str = "peerb@127.0.0.1";
+const RXB: &str = "rx:peerb@127.0.0.1";
 const STEP: Duration = Duration::from_millis(1500);
 
 pub struct Peer {
@@ -38,12 +40,17 @@ pub async fn connect_peer(node: &Arc<Node>, listener: &TcpListener) -> Option<Pe
 
 /// `tail`: framed distribution bytes the peer sends in one piece with its last handshake message
 pub async fn connect_peer_tail(node: &Arc<Node>, listener: &TcpListener, tail: &[u8]) -> Option<Peer> {
+    connect_peer_named(node, listener, PEER, tail).await
+}
+
+/// the scripted peer under another node name (a second connection of the same node)
+pub async fn connect_peer_named(node: &Arc<Node>, listener: &TcpListener, name: &str, tail: &[u8]) -> Option<Peer> {
     let acc = async {
         let (s, _) = listener.accept().await.ok()?;
         let _ = s.set_linger(Some(Duration::ZERO));
-        accept_handshake_tail(s, PEER, PEER_FLAGS, tail).await
+        accept_handshake_tail(s, name, PEER_FLAGS, tail).await
     };
-    let (pc, r) = tokio::join!(acc, node.connect(PEER));
+    let (pc, r) = tokio::join!(acc, node.connect(name));
     if r.is_err() {
         return None;
     }
@@ -95,6 +102,17 @@ async fn run_one(sc: &Value, node: &Arc<Node>, listener: &TcpListener, sched: &A
             if peer_slot.is_none() {
                 return json!({"tool_error": "could not connect the node to the scripted peer"});
             }
+        }
+    }
+    // a second connection of the node, for scenarios in which that other peer goes away
+    let mut peer_b: Option<Peer> = None;
+    if hist.iter().any(|(a, _)| a == "other_close") {
+        if node.connections().contains_key(PEERB) {
+            notes.push("stale connection to the second peer".into());
+        }
+        peer_b = connect_peer_named(node, listener, PEERB, &[]).await;
+        if peer_b.is_none() {
+            return json!({"tool_error": "could not connect the node to the second scripted peer"});
         }
     }
     sched.take_log();
@@ -175,6 +193,27 @@ async fn run_one(sc: &Value, node: &Arc<Node>, listener: &TcpListener, sched: &A
                         notes.push(format!("caller {x} did not return after {act}"));
                         break;
                     }
+                    tokio::time::sleep(Duration::from_micros(300)).await;
+                }
+            }
+            "other_close" => {
+                // the second peer closes; its receiver task is stepped through to the deregistration
+                if let Some(p) = peer_b.take() {
+                    p.kill();
+                }
+                match sched.wait_parked(RXB, STEP).await {
+                    Some((l, _)) if l == "rx.frame" => {
+                        sched.release(RXB);
+                        if sched.wait_parked(RXB, STEP).await.map(|x| x.0) == Some("rx.closing".to_string()) {
+                            sched.release(RXB);
+                        } else {
+                            notes.push("the second peer's receiver did not reach rx.closing".into());
+                        }
+                    }
+                    other => notes.push(format!("the second peer's receiver did not notice the close: {other:?}")),
+                }
+                let t0 = std::time::Instant::now();
+                while node.connections().contains_key(PEERB) && t0.elapsed() < STEP {
                     tokio::time::sleep(Duration::from_micros(300)).await;
                 }
             }
